@@ -9,6 +9,7 @@ import (
 	"runtime"
 	"sort"
 	"strings"
+	"sync/atomic"
 	"time"
 
 	"github.com/maypok86/otter/v2/internal/verif/vdet"
@@ -182,8 +183,30 @@ type explorer struct {
 	maxEB    int
 }
 
+// Progress counts completed executions / transitions (watched by the worker's watchdog).
+var Progress atomic.Int64
+
+// OtterFrames keeps the stack lines that mention otter's own code.
+func OtterFrames(stack string) string {
+	var out []string
+	lines := strings.Split(stack, "\n")
+	for i, l := range lines {
+		if strings.HasPrefix(l, "github.com/maypok86/otter/v2") && !strings.Contains(l, "/internal/verif/") {
+			out = append(out, l)
+			if i+1 < len(lines) {
+				out = append(out, lines[i+1])
+			}
+		}
+		if len(out) > 24 {
+			break
+		}
+	}
+	return strings.Join(out, "\n")
+}
+
 // runOnce performs one execution with the given choice prefix.
 func (e *explorer) runOnce(prefix []uint8, trace bool) *Exec {
+	defer Progress.Add(1)
 	vdet.Reset()
 	x := &Exec{prefix: prefix, Coarse: e.job.Coarse, Horizon: e.job.Horizon, Trace: trace, TerminationPromised: e.job.Terminat}
 	func() {
